@@ -211,6 +211,9 @@ PerMsg(c, o, m, L, ev) ==
         THEN {"C07_TimeoutEnforced"} ELSE {})
   \cup (IF ev.e = "end" /\ ev.s = "cancel" /\ MsgC(c, m).timeout = 0
         THEN {"C07_SpuriousCancel"} ELSE {})
+  \cup (IF ev.e = "end" /\ ev.s # "cancel" /\ MsgC(c, m).timeout > 0 /\ MsgC(c, m).body = "wait" /\ MsgC(c, m).task \in {"ta", "ta0"}
+           /\ o.now > o.stT[m] + MsgC(c, m).timeout
+        THEN {"C07_TimeoutNotEnforced"} ELSE {})
   (* ---------------- C10 ---------------- *)
   \cup (IF valid /\ ev.e \in StageEvents /\ ~C10StagesOK(c, m, L, oc) THEN {"C10_ExecOrder"} ELSE {})
   \cup (IF valid /\ ev.e \in {"pre_b", "pre_e", "onerr_b", "onerr_e", "post_b", "post_e", "postsave_b", "postsave_e"}
@@ -264,6 +267,9 @@ Global(c, o, ev) ==
         THEN {"C05_NoEarlyReturn"} ELSE {})
   \cup (IF ev.e = "ret" /\ o.nCb < Len(o.taken) THEN {"C05_Drains"} ELSE {})
   \cup (IF ev.e = "ret" /\ \E m \in TakenSet(o) : IsValid(c, m) /\ o.ms[m].cbB = 0 THEN {"C01_Lost"} ELSE {})
+  \cup (IF ev.e = "eot" /\ \E m \in 1..c.M : o.ms[m].st > 0 /\ o.ms[m].en = 0 /\ c.msgs[m].timeout > 0
+                                             /\ o.now > o.stT[m] + c.msgs[m].timeout
+        THEN {"C07_TimeoutNotEnforced"} ELSE {})
   \cup (IF ev.e = "eot" /\ o.retT < 0 /\ (c.A = 0 \/ o.nRun < c.A)
            /\ \E m \in TakenSet(o) : IsValid(c, m) /\ o.ms[m].cbB = 0
         THEN {"C01_Stuck"} ELSE {})
